@@ -46,5 +46,15 @@ claim("C17", "model_checking", scan_text(
       "crosses), monotone variation inside rarefaction fans (action property on consecutive fan points), and all values between the constant states."),
       MEAS, TECH, "DESIGN.md 9 C17")
 
-for p in ["C05", "C06", "C07", "C08", "C09", "C10", "C11", "C12", "C13", "C14", "C15", "C16", "C18", "C19", "C20"]:
+claim("C05", "model_checking",
+      "TLC enumerates every behaviour of the API-contract state machine spec/Session.tla (constructor probes ok / unknown parameter / missing value; "
+      "Call with 3 containers x 4 request sizes x 4 orders; CSV dump and read-back) with the invariants of the model; each behaviour is instantiated "
+      "for every public solver class found by introspection (120 today, new classes are picked up automatically) and replayed in a real interpreter; "
+      "the recorded operation events are validated against the specification by spec/TraceSession.tla (enabledness of each operation + the contract "
+      "clauses: record count, positions echoed in order and first, standard names, input not modified or aliased, container equivalence, exact CSV round trip).",
+      "Trusted base: TLC; harness/session.py (replay, abstraction of the reply) and harness/registry.py (a valid request per class); Python's csv/float for the read-back. "
+      "Slow classes replay a subset of the behaviours in the quick tier; RateStick/ExplosiveArc/Guderley/Sn/CylindricalSandwich are only constructed in quick.",
+      "TLC behaviour enumeration of Session.tla replayed into the real classes + TLA+ trace validation", "DESIGN.md 9 C05")
+
+for p in ["C06", "C07", "C08", "C09", "C10", "C11", "C12", "C13", "C14", "C15", "C16", "C18", "C19", "C20"]:
     pending(p, "check under construction in this round (design in DESIGN.md section 9); not claimed until it runs soundly on the unchanged tree")
